@@ -8,22 +8,19 @@ package maven
 var c15K = [...]string{"a", "b", "c", "d"}
 var c15N = [...]string{"0", "1", "2", "3"}
 
-// c15Text builds a text of nseg segments; each is a literal letter x/y/z or a
-// placeholder ${k} with k chosen symbolically among a, b, c and the absent d.
-func c15Text(tag string, nseg int) string {
+// c15Text builds a text of nseg segments. Bit i of pattern says whether
+// segment i is a placeholder ${k} (k a symbolic key among a, b, c and the
+// absent d) or a literal letter (symbolic among x, y, z).
+func c15Text(tag string, nseg, pattern int) string {
 	out := ""
 	for i := 0; i < nseg; i++ {
-		sel := vByte(tag + ".seg" + c15N[i])
-		vAssume(sel < 7)
-		switch {
-		case sel == 0:
-			out += "x"
-		case sel == 1:
-			out += "y"
-		case sel == 2:
-			out += "z"
-		default:
-			out += "${" + c15K[sel-3] + "}"
+		b := vByte(tag + ".seg" + c15N[i])
+		if pattern&(1<<uint(i)) != 0 {
+			vAssume(vAnd('a' <= b, b <= 'd'))
+			out += "${" + string([]byte{b}) + "}"
+		} else {
+			vAssume(vAnd('x' <= b, b <= 'z'))
+			out += string([]byte{b})
 		}
 	}
 	return out
@@ -46,9 +43,9 @@ func VerifC15Interpolate() {
 	nkeys := vParam("keys")
 	dict := map[string]string{}
 	for k := 0; k < nkeys; k++ {
-		dict[c15K[k]] = c15Text("val"+c15N[k], vParam("vseg"))
+		dict[c15K[k]] = c15Text("val"+c15N[k], vParam("vseg"), (vParam("vpat")>>uint(2*k))&3)
 	}
-	subject := c15Text("subj", vParam("sseg"))
+	subject := c15Text("subj", vParam("sseg"), vParam("spat"))
 	vObserveStr("subject", subject)
 	res, ok := interpolating(subject, dict, map[string]bool{})
 	vObserveStr("result", res)
@@ -98,7 +95,8 @@ func VerifC15PropertyPrecedence() {
 	}
 	vAssert(m["project.version"] == string(child.Version), "project.version is the project's version")
 	// an explicit property named "version" is not overridden by the built-in
-	child2 := Project{Version: "9"}
+	child2 := Project{}
+	child2.Version = "9"
 	child2.Properties.Properties = []Property{{Name: "version", Value: "explicit"}}
 	m2, _ := child2.propertyMap()
 	vAssert(m2["version"] == "explicit" && m2["project.version"] == "9", "built-ins do not override explicit properties")
